@@ -23,7 +23,9 @@ PY
   by=$prop
   if [ -z "$viol" ]; then
     by=""
-    for other in $(python3 -c "import json;print(' '.join(c['property_id'] for c in json.load(open('MANIFEST.json'))['checks']))"); do
+    # the checks whose functions live in the files the change touches
+    related=$(python3 /verif/seedrelated.py "$d/patch.diff")
+    for other in $related; do
       [ "$other" = "$prop" ] && continue
       o2=$(./check $other 2>&1); v2=$(echo "$o2" | grep "^VIOLATION" | sed 's/.*obligation=//; s/ no-failing-input-found//' | tr '\n' ';')
       if [ -n "$v2" ]; then by="$by $other"; viol="$viol$v2"; fi
